@@ -3,6 +3,7 @@ import UtilModel.Core.DriverH
 import UtilModel.Once.Model
 import UtilModel.Once.Monitors
 import UtilModel.Memo.Model
+import UtilModel.Memo.Monitors
 /-! Development driver: `lake env lean --run UtilModel/Once/TestDriver.lean once|memo < hist` -/
 open UtilModel
 
